@@ -74,38 +74,57 @@ def runNcg (j : Json) : Option Json := do
   let maxiter ← fNat? j "maxiter"
   let absdelta ← optField j "absdelta" getRat?
   let xtol ← fRat? j "xtol"
-  let c : NewtonRe.Cfg Rat := { miniter, maxiter, absdelta, xtol }
-  -- CG configuration (cg_kwargs of the harness: norm_ord=2, fixed resnorm, absdelta=None)
+  let erf ← optField j "erf" getRat?
+  let oldFval ← optField j "old_fval" getRat?
+  let c : NewtonRe.Cfg Rat := { miniter, maxiter, absdelta, xtol, erf, oldFval }
+  -- CG configuration: what cg_kwargs pins (norm_ord, resnorm, absdelta, miniter, maxiter) on top of the minimiser's defaults
   let cgj ← field? j "cg"
   let cres ← optField cgj "resnorm" getRat?
+  let cabs ← optField cgj "absdelta" getRat?
+  let pinRes := (fBool? cgj "pin_res").getD false
+  let pinAbs := (fBool? cgj "pin_abs").getD false
   let cmin ← optField cgj "miniter" getNat?
   let cmax ← optField cgj "maxiter" getNat?
   let tiny ← fRat? cgj "tiny"
   let eps ← fRat? cgj "eps"
   let ctol ← fRat? cgj "tol"
-  let cc : CgRe.Cfg Rat := { absdelta := none, resnorm := cres, tol := ctol, atol := 0, miniter := cmin, maxiter := cmax,
-                             raiseNPD := false, tiny, eps, nreset := 20, size := n }
+  let cord := (fStr? cgj "norm_ord").getD "1"
+  if cord != "2" && cord != "1" && cord != "inf" then none else
+  let cgnrm : RVec n → Rat := if cord == "inf" then RVec.normInf else RVec.norm1
+  -- `mag_g = norm(g, ord=cg_kwargs.get("norm_ord", 1))`
+  let magnorm : RVec n → Rat := fun g => if cord == "2" then 0 else cgnrm g
+  let base : CgRe.Cfg Rat := { absdelta := cabs, resnorm := cres, tol := ctol, atol := 0, miniter := cmin, maxiter := cmax,
+                               raiseNPD := false, normTwo := cord == "2", resnormSqrt := none, tiny, eps, nreset := 20,
+                               size := n }
+  if cord == "2" && !pinRes then none else      -- √-scaled default resnorm with the Euclidean magnitude is irrational
   let fake : Option (Rat × Int) := do
     let fj ← field? j "cgfake"
     let sc ← fRat? fj "scale"
     let inf ← fInt? fj "info"
     some (sc, inf)
-  let cgE : RVec n → RVec n → RVec n × Int := fun pos g =>
-    if let some (sc, inf) := fake then (sc • g, inf) else NewtonRe.cgOracle cc RVec.dot hessp pos g
-  let cgS : RVec n → RVec n → RVec n × Int := fun pos g =>
-    if let some (sc, inf) := fake then (sc • g, inf) else NewtonRe.cgOracleStatic cc RVec.dot hessp pos g
+  -- robustness probe of the harness: scale the derived CG thresholds by `pert` (default 1)
+  let pert : Rat := (fRat? j "pert").getD 1
+  let pa (a : NewtonRe.CgArgs Rat) : NewtonRe.CgArgs Rat := ⟨a.absdelta.map (· * pert), a.mag * pert⟩
+  let cgE : NewtonRe.CgArgs Rat → RVec n → RVec n → RVec n × Int := fun a0 pos g =>
+    let a := pa a0
+    if let some (sc, inf) := fake then (sc • g, inf) else
+      NewtonRe.cgOracle base pinAbs pinRes RVec.dot cgnrm hessp a pos g
+  let cgS : NewtonRe.CgArgs Rat → RVec n → RVec n → RVec n × Int := fun a0 pos g =>
+    let a := pa a0
+    if let some (sc, inf) := fake then (sc • g, inf) else
+      NewtonRe.cgOracleStatic base pinAbs pinRes RVec.dot cgnrm hessp a pos g
   let resJ (r : NewtonRe.NRes Rat (RVec n)) : Json :=
     jObj [("x", jApprox r.x.toList), ("status", jInt r.status), ("fun", ratApprox r.fn), ("nit", jNat r.nit)]
-  let eager := NewtonRe.ncgEager c f hessp RVec.dot l1 cgE x0
+  let eager := NewtonRe.ncgEager c f hessp RVec.dot l1 magnorm cgE x0
   let ej : Json := match eager with
     | .ok r => resJ r
     | .error _ => jObj [("error", Json.str "ValueError")]
-  let sj : Json := match NewtonRe.ncgStatic c f hessp RVec.dot l1 cgS x0 with
+  let sj : Json := match NewtonRe.ncgStatic c f hessp RVec.dot l1 magnorm cgS x0 with
     | some r => resJ r
     | none => jObj [("error", Json.str "ValueError")]
   -- trace of the eager run for margin decisions: the model's own step function is driven from here
   let item (st : NewtonRe.NSt Rat (RVec n)) : Json :=
-    let (natg, info) := cgE st.pos st.g
+    let (natg, info) := cgE (NewtonRe.eagerCgArgs c magnorm st) st.pos st.g
     let ls := NewtonRe.lineSearchEager f hessp RVec.dot st.pos st.energy st.g natg
     let rd := NewtonRe.resetDir RVec.dot hessp st.pos st.g
     let ntr := if ls.found then ls.trials else 9
@@ -122,11 +141,11 @@ def runNcg (j : Json) : Option Json := do
     | 0 => acc.reverse
     | fuel + 1 =>
       let acc := item st :: acc
-      match NewtonRe.ncgEagerStep c f hessp RVec.dot l1 cgE i st with
+      match NewtonRe.ncgEagerStep c f hessp RVec.dot l1 magnorm cgE i st with
       | .next st' => tr fuel (i + 1) st' acc
       | .stop _ => acc.reverse
   let fe0 := f x0
-  let trace := tr maxiter 1 ⟨x0, fe0.1, fe0.2⟩ []
+  let trace := tr maxiter 1 ⟨x0, fe0.1, fe0.2, oldFval⟩ []
   some (jObj [("eager", ej), ("static", sj), ("trace", Json.arr trace.toArray)])
 
 /-- trust-region replay: the sub-problem solver's recorded answers are the oracle (one per iteration) -/
